@@ -297,6 +297,12 @@ def decl_order(F, rep):
             # the case split must be exactly `matches!(value.kind, ExpressionKind::Function { .. })`: a property of the
             # initialiser only (not of annotations or names)
             c2 = peel(second["c"])
+            if c2.get("k") == "Path" and c2.get("res") == "Local":
+                # `let value_is_function = matches!(..); .. else if value_is_function`
+                for st in nodes(arm["body"], "Let"):
+                    if st.get("init") is not None and any(b["hid"] == c2["hid"] for b in pat_bindings(st["pat"])):
+                        c2 = peel(st["init"])
+                        break
             is_fn_test = False
             if c2.get("k") == "Match" and any(x == "matches" for x in c2.get("mac", [])):
                 scr = peel(c2["scrut"])
